@@ -70,12 +70,17 @@ func (ds *dataStore) newStoreKeyUnlocked(keyName string) *storeKey {
 // makes a full copy of a store key, optionally into a different data store
 func (ds *dataStore) copyStoreKeyUnlocked(srcKeyName, destKeyName string, dds *dataStore, overwrite bool) (newSk *storeKey, destExists bool) {
 	sk, exists := ds.getStoreKey(srcKeyName)
-	if !exists {
+	if !exists || sk.isExpiredUnlocked() {
+		// an expired key is a missing key
 		return
 	}
 
 	if !overwrite {
-		_, destExists = dds.getStoreKey(destKeyName)
+		var destSk *storeKey
+		destSk, destExists = dds.getStoreKey(destKeyName)
+		if destExists && destSk.isExpiredUnlocked() {
+			destExists = false
+		}
 		if destExists {
 			return
 		}
@@ -90,12 +95,17 @@ func (ds *dataStore) copyStoreKeyUnlocked(srcKeyName, destKeyName string, dds *d
 // moves a store key, optionally into a different data store
 func (ds *dataStore) moveStoreKeyUnlocked(srcKeyName, destKeyName string, dds *dataStore, overwrite bool) (newSk *storeKey, destExists bool) {
 	sk, exists := ds.getStoreKey(srcKeyName)
-	if !exists {
+	if !exists || sk.isExpiredUnlocked() {
+		// an expired key is a missing key
 		return
 	}
 
 	if !overwrite {
-		_, destExists = dds.getStoreKey(destKeyName)
+		var destSk *storeKey
+		destSk, destExists = dds.getStoreKey(destKeyName)
+		if destExists && destSk.isExpiredUnlocked() {
+			destExists = false
+		}
 		if destExists {
 			return
 		}
